@@ -32,7 +32,7 @@ pub struct ChildJob<'a> {
     pub cwd: Option<std::path::PathBuf>,
 }
 
-fn cpu_ticks(pid: u32) -> Option<(u64, bool)> {
+pub fn cpu_ticks(pid: u32) -> Option<(u64, bool)> {
     // sum of utime+stime over all tasks; and whether all tasks are sleeping
     let mut total = 0u64;
     let mut all_sleeping = true;
